@@ -27,12 +27,15 @@ Inductive step :=
 | SList
 (* kernel side *)
 | KEmit (r : raw)             (* a notification for a live mark is queued *)
-| KRelease (wd : N)           (* the inode of a mark is freed (or unmounted): mark dropped, IN_IGNORED queued *)
+| KRelease (wd : N) (ds : bool)
+    (* the inode of a mark is freed: the mark is dropped and IN_IGNORED queued, preceded by IN_DELETE_SELF when [ds]
+       (i.e. when the mark subscribed to it).  The kernel never reports IN_DELETE_SELF without dropping the mark. *)
 | KOverflow                   (* the queue overflowed: IN_Q_OVERFLOW record *)
 (* reader *)
 | SHandle (dirs : list (string * N))      (* the reader handles the next queued notification *)
 | SInject (r : raw) (dirs : list (string * N)).   (* fault: the reader is handed a record the kernel never queued *)
 
+Definition delete_self_rec (wd : N) : raw := mkRaw wd IN_DELETE_SELF 0 0 EmptyString.
 Definition overflow_rec : raw := mkRaw 4294967295 IN_Q_OVERFLOW 0 0 EmptyString.
 
 Definition request_flags (ops : N) (nofollow : bool) : N :=
@@ -45,9 +48,10 @@ Definition k_emit (k : kernel) (r : raw) : kernel := mkK (marks k) (next_wd k) (
 (* is this kernel-side step allowed by the inotify contract? (K3: only live marks are reported) *)
 Definition env_ok (s : sys) (st : step) : bool :=
   match st with
-  | KEmit r => bool_decide (is_Some (marks (K s) !! r_wd r)) && negb (has_any (r_mask r) (N.lor IN_IGNORED IN_Q_OVERFLOW))
+  | KEmit r => bool_decide (is_Some (marks (K s) !! r_wd r))
+               && negb (has_any (r_mask r) (N.lor IN_IGNORED (N.lor IN_Q_OVERFLOW (N.lor IN_DELETE_SELF IN_UNMOUNT))))
                && raw_wf r
-  | KRelease wd => bool_decide (is_Some (marks (K s) !! wd))
+  | KRelease wd _ => bool_decide (is_Some (marks (K s) !! wd))
   | _ => true
   end.
 
@@ -81,8 +85,9 @@ Definition sys_step (cfg : config) (s : sys) (st : step) : sys * api_result :=
     (mkSys K1 W1 (outs s) (handled s), match e with Some x => RErr x | None => RNil end)
   | SList => (s, RList (watch_list (W s)))
   | KEmit r => (mkSys (k_emit (K s) r) (W s) (outs s) (handled s), RNil)
-  | KRelease wd =>
-    (mkSys (mkK (delete wd (marks (K s))) (next_wd (K s)) (kq (K s) ++ [ignored_rec wd])) (W s) (outs s) (handled s), RNil)
+  | KRelease wd ds =>
+    (mkSys (mkK (delete wd (marks (K s))) (next_wd (K s))
+                (kq (K s) ++ (if ds then [delete_self_rec wd] else []) ++ [ignored_rec wd])) (W s) (outs s) (handled s), RNil)
   | KOverflow => (mkSys (k_emit (K s) overflow_rec) (W s) (outs s) (handled s), RNil)
   | SHandle dirs =>
     match kq (K s) with
